@@ -383,6 +383,36 @@ func (g *Gen) Next(w *World, step int) string {
 			return fmt.Sprintf("resyncrec %d %d %d", ip, f, pf)
 		})
 	}
+	// an administrator reserves addresses by hand (labelled objects) and withdraws reservations
+	{
+		dump := w.IPAMDump()
+		var freeIPs, resvIPs, usedIPs []uint32
+		for _, r := range dump {
+			switch {
+			case r.Free:
+				freeIPs = append(freeIPs, r.IP)
+			case r.Reserved:
+				resvIPs = append(resvIPs, r.IP)
+			default:
+				usedIPs = append(usedIPs, r.IP)
+			}
+		}
+		if len(resvIPs) < 2 && len(freeIPs) > 0 {
+			add(0.55, func() string {
+				ip := freeIPs[rng.Intn(len(freeIPs))]
+				if len(usedIPs) > 0 && rng.Intn(100) < 12 {
+					ip = usedIPs[rng.Intn(len(usedIPs))] // refused: the address is allocated
+				}
+				return fmt.Sprintf("admres %d %s %d", ip, []string{"reserved-for-node", "keep"}[rng.Intn(2)], []int{2, 2, 0, 1}[rng.Intn(4)])
+			})
+		}
+		if len(resvIPs) > 0 {
+			add(0.3, func() string { return fmt.Sprintf("admunres %d", resvIPs[rng.Intn(len(resvIPs))]) })
+		}
+		if len(usedIPs) > 0 {
+			add(0.05, func() string { return fmt.Sprintf("admunres %d", usedIPs[rng.Intn(len(usedIPs))]) })
+		}
+	}
 	add(1.2, func() string {
 		g.needSync = true
 		if rng.Intn(2) == 0 {
